@@ -54,6 +54,10 @@ func (i *Ignore) load(rootGoitPath string) error {
 		}
 		i.paths = append(i.paths, replacedText)
 	}
+	// a read error must not pass for the end of the file
+	if err := scanner.Err(); err != nil {
+		return fmt.Errorf("fail to read %s: %w", goitignorePath, err)
+	}
 
 	return nil
 }
